@@ -251,7 +251,14 @@ class Session:
         # ---- exactly at the bound -------------------------------------------------------------
         if step.get("exact"):
             ctx.count("exact_attempts")
-            if metric is not None and metric == out["bound"] and dec_ok_type:
+            # only asserted where the two usual ways of writing the bound (isf(alpha) / ppf(1-alpha)) agree bitwise,
+            # so that an equivalent re-formulation of the bound cannot raise a false alarm here
+            from scipy.stats import chi2 as _chi2
+
+            same_bound = float(_chi2.ppf(1.0 - self.cfg["alpha"], out["dof"])) == out["bound"]
+            if not same_bound:
+                ctx.count("exact_skipped_bound_formulations_differ")
+            if metric is not None and metric == out["bound"] and dec_ok_type and same_bound:
                 self._chk(bool(dec), f"{kind}-decision-at-exact-bound",
                           f"{head}: metric {metric!r} is bitwise chi2.isf(alpha, {out['dof']!r}) but no manoeuvre was declared "
                           "('reaches the bound' means >=)", "at_bound")
